@@ -78,8 +78,18 @@ func genTotal(t *rapid.T) TotalCase {
 		c.Bs = sm.GenBindings(t, "bs")
 	}
 	for i := rapid.IntRange(0, 4).Draw(t, "nm"); i > 0; i-- {
-		if rapid.IntRange(0, 5).Draw(t, fmt.Sprintf("null%d", i)) == 0 {
+		if k := rapid.IntRange(0, 7).Draw(t, fmt.Sprintf("null%d", i)); k == 0 {
 			c.Messages = append(c.Messages, nil)
+		} else if pats := sm.MessagePatterns(a); k == 2 && len(pats) > 0 {
+			// a message that is one of the spec's own patterns (its
+			// strings look like pattern variables)
+			c.Messages = append(c.Messages, jsongen.Copy(pats[rapid.IntRange(0, len(pats)-1).Draw(t, fmt.Sprintf("selfpat%d", i))]))
+		} else if k == 1 {
+			// messages whose strings look like pattern variables
+			hv := rapid.SampledFrom([]interface{}{"?x", "?", "??o", "?<n", "?p", "?m", "?y"}).Draw(t, fmt.Sprintf("hostile%d", i))
+			c.Messages = append(c.Messages, map[string]interface{}{
+				rapid.SampledFrom([]string{"a", "b", "c"}).Draw(t, fmt.Sprintf("hk%d", i)): hv,
+				rapid.SampledFrom([]string{"a", "b", "c"}).Draw(t, fmt.Sprintf("hk2%d", i)): rapid.SampledFrom([]interface{}{"?x", 1.0, "?y"}).Draw(t, fmt.Sprintf("hostile2%d", i))})
 		} else {
 			c.Messages = append(c.Messages, sm.GenMessageFor(t, a, fmt.Sprintf("m%d", i)))
 		}
@@ -518,7 +528,7 @@ func specSpins(a *sm.ASpec) bool {
 }
 
 func TestC07Total(t *testing.T) {
-	ev.Run(t, ev.Opts{Property: "C07", Name: "total", Quick: 15000, Thorough: 800000,
+	ev.Run(t, ev.Opts{Property: "C07", Name: "total", Quick: 15000, Thorough: 800000, Journal: true,
 		Rule: "spec documents (Go / JSON / YAML, structure-aware mutations: null nodes, branchings, branches, actions; wrong types; unknown targets, interpreters, syntaxes, branching types) x states (nil bindings, permanent keys, unknown node) x messages (incl. null) x control (nil, limit <= 0, breakpoints) x failing ECMAScript and native behaviours (throw, timeout, null, scalars, unserialisable emission, error with partial result) under a panic trap and watchdog; non-trivial = at least two failure dimensions combined"},
 		genTotal, checkTotal)
 }
